@@ -192,6 +192,34 @@ def line_tags(text):
                     if depth <= 0 and k == no:
                         break
                     k += 1
+    # A clause line without a tag of its own (one of several lines of a requires / ensures / invariant list) takes the
+    # tags of the nearest tagged clause line of the same annotation block: the lines of one list state one contract.
+    # (Only `//@`-originated clause lines are concerned; see mirror.hoist: they are contiguous in the mirror.)
+    clause_kw = ('requires', 'ensures', 'invariant', 'invariant_except_break', 'decreases', 'recommends')
+    n = len(lines)
+    i = 0
+    while i < n:
+        w = lines[i].strip().split(' ')[0].rstrip(',') if lines[i].strip() else ''
+        if w in clause_kw and not lines[i].lstrip().startswith('//'):
+            j = i
+            # the clause list runs until a line that opens the body / starts a statement
+            while j + 1 < n:
+                t = lines[j + 1].strip()
+                if t == '' or t == '{' or (t.startswith(('proof', 'let ', '{', 'fn ', 'pub ', '}', 'for ', 'while ', 'loop', 'if ', 'match ', '---'))
+                                           or (t.startswith('self.') and t.endswith(';'))):
+                    break
+                j += 1
+            block = list(range(i + 1, j + 2))   # 1-based line numbers
+            tagged = [b for b in block if tags.get(b)]
+            if tagged:
+                for b in block:
+                    if not tags.get(b):
+                        after = [x for x in tagged if x > b]
+                        src = after[0] if after else tagged[-1]
+                        tags[b] = list(tags[src])
+            i = j + 1
+            continue
+        i += 1
     return tags
 
 
@@ -358,7 +386,10 @@ def classify(res, text, linemap, units):
             if any(c in callee for c in UTF8_CTORS):
                 ftags.add('C02')
         elif not ftags and not stags:
-            ftags = set(units.get(fn, {}).get('direct', units.get(fn, {}).get('props', [])))
+            # an untagged functional clause: the function's own properties -- but not C03 (a wrong result is not a panic)
+            u = units.get(fn, {})
+            ftags = set(u.get('direct', u.get('props', []))) - {'C03'}
+            stags = set(u.get('props', [])) - ftags - {'C03'}
         if not ftags and not stags:
             undecided.append('failure that no property claims (function %s, %s): treated as undecided' % (fn, msg))
         clause_text = '; '.join(lines[cl - 1].strip() for cl in clause_lines[:3])
